@@ -14,6 +14,7 @@ const preludeBase = `(set-logic ALL)
 (declare-datatypes ((Unit 0)) (((unit))))
 ; ---- dynamic values -------------------------------------------------------
 (declare-fun typeof (Val) Int)
+(declare-fun tmd (Int Int) Str)
 (declare-fun nil_val () Val)
 (assert (= (typeof nil_val) 0))
 (assert (forall ((v Val)) (! (=> (= (typeof v) 0) (= v nil_val)) :pattern ((typeof v)))))
@@ -35,10 +36,10 @@ const preludeBase = `(set-logic ALL)
 (declare-fun telem (Int) Int)
 (declare-fun tkey (Int) Int)
 ; ---- integer helpers --------------------------------------------------------
-(define-fun tdiv ((a Int) (b Int)) Int
-  (ite (>= a 0) (ite (> b 0) (div a b) (- (div a (- b))))
-                (ite (> b 0) (- (div (- a) b)) (div (- a) (- b)))))
+(define-fun tdiv ((a Int) (b Int)) Int (ite (>= a 0) (ite (> b 0) (div a b) (- (div a (- b)))) (ite (> b 0) (- (div (- a) b)) (div (- a) (- b)))))
 (define-fun tmod ((a Int) (b Int)) Int (- a (* b (tdiv a b))))
+(declare-fun eix (Int Int) Int)
+(assert (forall ((o Int) (i Int)) (! (= (eix o i) (+ o i)) :pattern ((eix o i)))))
 (define-fun imin ((a Int) (b Int)) Int (ite (< a b) a b))
 (define-fun imax ((a Int) (b Int)) Int (ite (> a b) a b))
 (define-fun in_i64 ((a Int)) Bool (and (<= (- 9223372036854775808) a) (<= a 9223372036854775807)))
@@ -83,14 +84,13 @@ var axGroups = []axGroup{
 (assert (forall ((a Flt) (b Flt)) (! (= (f_eq a b) (f_eq b a)) :pattern ((f_eq a b)))))
 (assert (forall ((a Flt) (b Flt)) (! (=> (f_lt a b) (and (not (f_lt b a)) (not (f_eq a b)))) :pattern ((f_lt a b)))))
 (assert (forall ((a Flt) (b Flt)) (! (=> (= a b) (or (f_eq a b) (f_isnan a))) :pattern ((f_eq a b)))))
-(assert (forall ((i Int) (j Int)) (! (=> (and (<= (- 9007199254740992) i) (<= i 9007199254740992) (<= (- 9007199254740992) j) (<= j 9007199254740992))
-   (and (= (f_lt (i2f i) (i2f j)) (< i j)) (= (f_eq (i2f i) (i2f j)) (= i j)))) :pattern ((i2f i) (i2f j)))))
+(assert (forall ((i Int) (j Int)) (! (=> (and (<= (- 9007199254740992) i) (<= i 9007199254740992) (<= (- 9007199254740992) j) (<= j 9007199254740992)) (and (= (f_lt (i2f i) (i2f j)) (< i j)) (= (f_eq (i2f i) (i2f j)) (= i j)))) :pattern ((i2f i) (i2f j)))))
 (assert (forall ((i Int)) (! (not (f_isnan (i2f i))) :pattern ((i2f i)))))`},
 	{"str", []string{"str_", "Str"}, `; ---- strings ----------------------------------------------------------------
 (assert (forall ((s Str)) (! (>= (str_len s) 0) :pattern ((str_len s)))))
 (assert (= (str_len str_empty) 0))
 (assert (forall ((s Str)) (! (=> (= (str_len s) 0) (= s str_empty)) :pattern ((str_len s)))))
-(assert (forall ((s Str) (a Int) (b Int)) (! (=> (and (<= 0 a) (<= a b) (<= b (str_len s))) (= (str_len (str_sub s a b)) (- b a))) :pattern ((str_sub s a b)))))
+(assert (forall ((s Str) (a Int) (b Int)) (! (=> (and (<= 0 a) (<= a b) (<= b (str_len s))) (= (str_len (str_sub s a b)) (- b a))) :pattern ((str_len (str_sub s a b))))))
 (assert (forall ((s Str) (n Int)) (! (=> (= n (str_len s)) (= (str_sub s 0 n) s)) :pattern ((str_sub s 0 n)))))
 (assert (forall ((s Str) (a Int) (b Int) (i Int)) (! (=> (and (<= 0 a) (<= a b) (<= b (str_len s)) (<= 0 i) (< i (- b a))) (= (str_at (str_sub s a b) i) (str_at s (+ a i)))) :pattern ((str_at (str_sub s a b) i)))))
 (assert (forall ((s Str) (a Int) (b Int) (c Int) (d Int)) (! (=> (and (<= 0 a) (<= a b) (<= b (str_len s)) (<= 0 c) (<= c d) (<= d (- b a))) (= (str_sub (str_sub s a b) c d) (str_sub s (+ a c) (+ a d)))) :pattern ((str_sub (str_sub s a b) c d)))))
@@ -99,12 +99,12 @@ var axGroups = []axGroup{
 (assert (forall ((s Str)) (! (= (str_cat str_empty s) s) :pattern ((str_cat str_empty s)))))
 (assert (forall ((s Str) (t Str) (u Str)) (! (= (str_cat (str_cat s t) u) (str_cat s (str_cat t u))) :pattern ((str_cat (str_cat s t) u)))))
 (assert (forall ((s Str) (a Int) (b Int) (c Int)) (! (=> (and (<= 0 a) (<= a b) (<= b c) (<= c (str_len s))) (= (str_cat (str_sub s a b) (str_sub s b c)) (str_sub s a c))) :pattern ((str_cat (str_sub s a b) (str_sub s b c))))))
-(assert (forall ((s Str) (t Str)) (! (and (= (str_sub (str_cat s t) 0 (str_len s)) s) (= (str_sub (str_cat s t) (str_len s) (+ (str_len s) (str_len t))) t)) :pattern ((str_cat s t)))))
+(assert (forall ((s Str) (t Str) (a Int) (b Int)) (! (and (=> (and (= a 0) (= b (str_len s))) (= (str_sub (str_cat s t) a b) s)) (=> (and (= a (str_len s)) (= b (+ (str_len s) (str_len t)))) (= (str_sub (str_cat s t) a b) t))) :pattern ((str_sub (str_cat s t) a b)))))
 (assert (forall ((s Str) (a Int)) (! (=> (and (<= 0 a) (<= a (str_len s))) (= (str_sub s a a) str_empty)) :pattern ((str_sub s a a)))))`},
 	{"count", []string{"str_count"}, `(assert (forall ((s Str) (c Int)) (! (>= (str_count s c) 0) :pattern ((str_count s c)))))
 (assert (forall ((c Int)) (! (= (str_count str_empty c) 0) :pattern ((str_count str_empty c)))))
 (assert (forall ((s Str) (t Str) (c Int)) (! (= (str_count (str_cat s t) c) (+ (str_count s c) (str_count t c))) :pattern ((str_count (str_cat s t) c)))))
-(assert (forall ((s Str) (a Int) (b Int) (m Int) (c Int)) (! (=> (and (<= 0 a) (<= a m) (<= m b) (<= b (str_len s))) (= (str_count (str_sub s a b) c) (+ (str_count (str_sub s a m) c) (str_count (str_sub s m b) c)))) :pattern ((str_count (str_sub s a m) c) (str_count (str_sub s m b) c)))))`},
+(assert (forall ((s Str) (a Int) (b Int) (m Int) (c Int)) (! (=> (and (<= 0 a) (<= a m) (<= m b) (<= b (str_len s))) (= (str_count (str_sub s a b) c) (+ (str_count (str_sub s a m) c) (str_count (str_sub s m b) c)))) :pattern ((str_count (str_sub s a b) c) (str_count (str_sub s a m) c) (str_count (str_sub s m b) c)))))`},
 	{"trim", []string{"str_ltrim", "str_rtrim", "str_stripws", "str_lspace", "str_rspace"}, `; whitespace trimming: ltrim/rtrim drop a whitespace-only prefix/suffix
 (assert (forall ((s Str)) (! (and (<= 0 (str_rspace s)) (<= (str_rspace s) (str_len s)) (= (str_rtrim s) (str_sub s 0 (- (str_len s) (str_rspace s))))) :pattern ((str_rtrim s)))))
 (assert (forall ((s Str)) (! (= (str_stripws (str_rtrim s)) (str_stripws s)) :pattern ((str_rtrim s)))))
